@@ -515,6 +515,11 @@ func checkC10(c *Ctx, r *Report) error {
 				r.Violate("fault:"+name, fmt.Sprintf("runtime fault while 16 goroutines call Evaluate on one %s shape (%s): %s", name, mode, o.fatal), input)
 			case o.res == nil:
 				r.Violate("fault:"+name, "no result from the child process for "+name, input)
+			case strings.Contains(o.res.Err, "differ sequentially"):
+				// two instances of the same shape, evaluated one after the other from one goroutine,
+				// disagree: Evaluate is not a function of the point (e.g. it spawns goroutines and
+				// folds their results in completion order)
+				r.Violate("value-seq:"+name, fmt.Sprintf("two fresh %s instances evaluated sequentially at the same points return different values (%s): Evaluate is not a function of the point, so concurrent results cannot equal sequential ones", name, mode), input)
 			case o.res.Err != "":
 				return fmt.Errorf("family %s: %s", name, o.res.Err)
 			case o.res.Panic != "":
